@@ -62,6 +62,10 @@ def Spec.step (s : Spec) : Op → Spec
       match w with
       | .unknown => s
       | .expiry => { s with vis := C06.vis (C06.step (ofVis s.vis) (.updateAccount k (closeMods tx h))).1 }
+      | .multiSigRecreate =>
+        match s.staged with
+        | some st => if readable s.vis st then ⟨applyStaged st s.vis, none⟩ else s
+        | none => s
       | .multiSig =>
         match s.staged with
         | some st =>
@@ -324,6 +328,10 @@ theorem refines_accountSpend (db : DB) (h : Coh db) (k : Key) (w : Witness) (tx 
     | unknown => exact ⟨rfl, h⟩
     | expiry =>
       have := refines_updateAccount db h k (closeMods tx ht)
+      simp only [step, Spec.step, abs, vis] at this
+      exact this
+    | multiSigRecreate =>
+      have := refines_spend db h
       simp only [step, Spec.step, abs, vis] at this
       exact this
     | multiSig =>
